@@ -1581,3 +1581,296 @@ pub fn gen_c15(r: &mut Rng) -> (String, Sim) {
     );
     (class, sim)
 }
+
+// ---------------------------------------------------------------------------
+// C12: a host that obeys the timer actions, in simulated time
+
+pub struct Host {
+    pub now: u128, // ns
+    pub timers: Vec<[Option<u128>; 5]>,
+    pub next_bmca: u128,
+    pub bmca_ns: u128,
+}
+
+impl Host {
+    pub fn new(sim: &Sim) -> Host {
+        let log = sim.cfgs.iter().map(|c| c.log_announce).min().unwrap_or(0);
+        let bmca_ns = if log >= 0 { NS << log } else { NS >> (-log) };
+        let mut h = Host {
+            now: 0,
+            timers: vec![[None; 5]; sim.nports()],
+            next_bmca: bmca_ns,
+            bmca_ns,
+        };
+        for (p, k, ns) in &sim.init_resets {
+            h.timers[*p][*k as usize] = Some(*ns);
+        }
+        h
+    }
+    pub fn apply(&mut self, sim: &Sim) {
+        for (p, k, ns) in &sim.last_resets {
+            self.timers[*p][*k as usize] = Some(self.now + *ns);
+        }
+    }
+    /// execute an event, keeping the timer bookkeeping in step
+    pub fn exec(&mut self, sim: &mut Sim, ev: Ev) -> bool {
+        match &ev {
+            Ev::AnnounceTimer(p) => self.timers[*p][0] = None,
+            Ev::SyncTimer(p) => self.timers[*p][1] = None,
+            Ev::DelayReqTimer(p) => self.timers[*p][2] = None,
+            Ev::AnnounceReceiptTimer(p) => self.timers[*p][3] = None,
+            Ev::FilterUpdateTimer(p) => self.timers[*p][4] = None,
+            _ => {}
+        }
+        let ok = sim.step(ev);
+        self.apply(sim);
+        ok
+    }
+    pub fn tick_to(&mut self, sim: &mut Sim, t: u128) -> bool {
+        if t > self.now {
+            let dt = (t - self.now) as u64;
+            self.now = t;
+            return sim.step(Ev::Tick(dt));
+        }
+        true
+    }
+    /// the earliest due thing: (time, Some((port, kind))) or BMCA
+    pub fn next_due(&self) -> (u128, Option<(usize, usize)>) {
+        let mut best = (self.next_bmca, None);
+        for (p, ts) in self.timers.iter().enumerate() {
+            for (k, t) in ts.iter().enumerate() {
+                if let Some(t) = t {
+                    if *t < best.0 {
+                        best = (*t, Some((p, k)));
+                    }
+                }
+            }
+        }
+        best
+    }
+    pub fn bits(&self) -> u128 {
+        (1_700_000_000u128 * NS + self.now) << 32
+    }
+    /// run the obedient host until `until`; event sends get their timestamp right away
+    pub fn run(&mut self, r: &mut Rng, sim: &mut Sim, w: &mut World, until: u128, lose_ts: bool, mut each: impl FnMut(&mut Host, &mut Rng, &mut Sim, &mut World) -> bool) -> bool {
+        let mut guard = 0;
+        while guard < 1500 {
+            guard += 1;
+            if !each(self, r, sim, w) {
+                return false;
+            }
+            let (t, what) = self.next_due();
+            if t > until {
+                return self.tick_to(sim, until);
+            }
+            if !self.tick_to(sim, t) {
+                return false;
+            }
+            let ok = match what {
+                None => {
+                    self.next_bmca = self.now + self.bmca_ns;
+                    self.exec(sim, Ev::Bmca)
+                }
+                Some((p, 0)) => self.exec(sim, Ev::AnnounceTimer(p)),
+                Some((p, 1)) => self.exec(sim, Ev::SyncTimer(p)),
+                Some((p, 2)) => self.exec(sim, Ev::DelayReqTimer(p)),
+                Some((p, 3)) => self.exec(sim, Ev::AnnounceReceiptTimer(p)),
+                Some((p, _)) => self.exec(sim, Ev::FilterUpdateTimer(p)),
+            };
+            if !ok {
+                return false;
+            }
+            w.observe(sim);
+            // transmit timestamps
+            for p in 0..sim.nports() {
+                while !sim.pending[p].is_empty() {
+                    if lose_ts && r.chance(1, 10) {
+                        sim.pending[p].remove(0); // lost transmit timestamp
+                        continue;
+                    }
+                    let b = self.bits();
+                    if !self.exec(sim, Ev::SendTimestamp(p, 0, b)) {
+                        return false;
+                    }
+                    w.observe(sim);
+                }
+            }
+        }
+        true
+    }
+}
+
+pub fn gen_c12(r: &mut Rng) -> (String, Sim) {
+    // random prefix (host calls in any order, no time passing)
+    let mut icfg = rand_inst_cfg(r);
+    icfg.slave_only = r.chance(1, 8);
+    let np = 1 + r.below(2) as usize;
+    let cfgs: Vec<PortCfg> = (0..np)
+        .map(|_| {
+            let mut c = rand_port_cfg(r);
+            c.log_announce = r.range(-1, 1) as i8;
+            c.log_sync = r.range(-1, 0) as i8;
+            c.log_delay = r.range(-1, 1) as i8;
+            c.receipt_timeout = r.range(2, 3) as u8;
+            c
+        })
+        .collect();
+    let mut sim = Sim::new(icfg, cfgs);
+    let mut w = World::new(r, &sim, 2);
+    w.masters[0].ann.prio1 = 10;
+    w.masters[0].ann.steps = 1;
+    w.masters[0].ann.gm = w.masters[0].clock;
+    let mut host = Host::new(&sim);
+    let prefix = r.below(25);
+    for _ in 0..prefix {
+        let ev = if r.chance(1, 3) {
+            // help reaching slave / faulty states
+            match r.below(3) {
+                0 => {
+                    let f = w.announce_frame(0, &[]);
+                    Ev::RecvGeneral(0, f)
+                }
+                1 => Ev::Bmca,
+                _ => Ev::DelayReqTimer(0),
+            }
+        } else {
+            mix_event(r, &sim, &mut w)
+        };
+        if !host.exec(&mut sim, ev) {
+            break;
+        }
+        w.observe(&sim);
+    }
+    // directed scenario for the recovery from a peer delay fault (1 case in 8)
+    if r.chance(1, 8) {
+        return gen_c12_recovery(r);
+    }
+    let mode = r.below(3); // 0 = silence, 1 = steady better master, 2 = master then silence
+    let longest = sim
+        .cfgs
+        .iter()
+        .map(|c| (2 * c.receipt_timeout as u128 + 12) * if c.log_announce >= 0 { NS << c.log_announce } else { NS >> (-c.log_announce) })
+        .max()
+        .unwrap();
+    let horizon = longest + 4 * host.bmca_ns + r.below(3) as u128 * NS;
+    let lose = r.chance(1, 4);
+    let mut next_ann: u128 = 0;
+    let mut next_sync: u128 = 0;
+    let ann_ns = NS; // the foreign master announces once per second
+    let steady_until = match mode {
+        2 => host.now + (4 + r.below(6) as u128) * NS,
+        1 => host.now + horizon,
+        _ => host.now,
+    };
+    let until = if mode == 2 { steady_until + horizon } else { host.now + horizon };
+    let ok = host.run(r, &mut sim, &mut w, until, lose, |h, r, sim, w| {
+        if mode == 0 || h.now > steady_until {
+            return true;
+        }
+        // the steady master: announce and sync (two-step) on port 0, answers delay requests
+        if h.now >= next_ann {
+            next_ann = h.now + ann_ns;
+            let f = w.announce_frame(0, &[]);
+            if !h.exec(sim, Ev::RecvGeneral(0, f)) {
+                return false;
+            }
+        }
+        if h.now >= next_sync {
+            next_sync = h.now + ann_ns / 2;
+            let t2 = h.bits();
+            let (s, f) = sync_frames(r, w, 0, true, t2);
+            if !h.exec(sim, Ev::RecvEvent(0, s, t2)) {
+                return false;
+            }
+            if !h.exec(sim, Ev::RecvGeneral(0, f)) {
+                return false;
+            }
+        }
+        if let Some((seq, _)) = w.last_delay_req[0].take() {
+            let ms = &w.masters[0];
+            let h2 = w.hdr(DELAY_RESP, ms.clock, ms.port, seq);
+            let (s, n) = wire_ts(h.bits());
+            let mut body = ts10(s, n);
+            body.extend_from_slice(&pid10(sim.icfg.clock_identity, 1));
+            if !h.exec(sim, Ev::RecvGeneral(0, frame(&h2, &body, &[]))) {
+                return false;
+            }
+        }
+        true
+    });
+    let _ = ok;
+    let class = format!(
+        "c12:{}:mode{}:np{}:{}{}:{}:{}",
+        if sim.panicked { "panic" } else { "ok" },
+        mode,
+        np,
+        if sim.icfg.slave_only { "so" } else { "" },
+        if lose { "lose" } else { "" },
+        sim.states.iter().map(|s| s.to_string()).collect::<Vec<_>>().join(""),
+        w.visited.iter().cloned().collect::<Vec<_>>().join("")
+    );
+    (class, sim)
+}
+
+/// P2P port: master by receipt timeout, two responders => faulty, clean exchange => listening, then silence.
+pub fn gen_c12_recovery(r: &mut Rng) -> (String, Sim) {
+    let mut icfg = rand_inst_cfg(r);
+    icfg.slave_only = false;
+    let mut c = rand_port_cfg(r);
+    c.p2p = true;
+    c.log_announce = 0;
+    c.log_sync = 0;
+    c.log_delay = 0;
+    c.receipt_timeout = 2;
+    c.master_only = false;
+    let mut sim = Sim::new(icfg, vec![c]);
+    let mut w = World::new(r, &sim, 1);
+    let own = sim.icfg.clock_identity;
+    let mut host = Host::new(&sim);
+    let via_timer = r.chance(2, 3);
+    let mut ok = true;
+    if via_timer {
+        // let the receipt timer expire: the port becomes master and the timer is gone
+        let until = host.now + 5 * NS;
+        ok = host.run(r, &mut sim, &mut w, until, false, |_, _, _, _| true);
+    }
+    let resp = |w: &World, who: u64, seq: u16, t: u128, own: u64| -> Ev {
+        let (s, n) = wire_ts(t);
+        let mut body = ts10(s, n);
+        body.extend_from_slice(&pid10(own, 1));
+        let h = w.hdr(PDELAY_RESP, who, 1, seq); // one-step responder
+        Ev::RecvEvent(0, frame(&h, &body, &[]), t + (1000 << 32))
+    };
+    // pdelay request, timestamp, two different responders
+    ok = ok && host.exec(&mut sim, Ev::DelayReqTimer(0));
+    w.observe(&sim);
+    if !sim.pending[0].is_empty() {
+        let b = host.bits();
+        let k = sim.pending[0].len() - 1;
+        ok = ok && host.exec(&mut sim, Ev::SendTimestamp(0, k, b));
+    }
+    let seq = w.last_pdelay_req[0].unwrap_or(0);
+    let b = host.bits();
+    ok = ok && host.exec(&mut sim, resp(&w, 0x4400_0000_0000_0000, seq, b, own));
+    ok = ok && host.exec(&mut sim, resp(&w, 0x4500_0000_0000_0000, seq, b, own));
+    w.observe(&sim);
+    // let the remaining master timers die while faulty
+    let until = host.now + 3 * NS;
+    ok = ok && host.run(r, &mut sim, &mut w, until, false, |_, _, _, _| true);
+    // clean exchange: the delay request timer keeps running in every state
+    let seq2 = w.last_pdelay_req[0].unwrap_or(0);
+    let b = host.bits();
+    ok = ok && host.exec(&mut sim, resp(&w, 0x4400_0000_0000_0000, seq2, b, own));
+    w.observe(&sim);
+    // silence
+    let until = host.now + 30 * NS;
+    let _ = ok && host.run(r, &mut sim, &mut w, until, false, |_, _, _, _| true);
+    let class = format!(
+        "c12:{}:recovery:{}:{}:{}",
+        if sim.panicked { "panic" } else { "ok" },
+        if via_timer { "was-master" } else { "was-listening" },
+        sim.states.iter().map(|s| s.to_string()).collect::<Vec<_>>().join(""),
+        w.visited.iter().cloned().collect::<Vec<_>>().join("")
+    );
+    (class, sim)
+}
